@@ -260,6 +260,8 @@ def _broadcastable(a, b):
 
 def run_jobs(jobs, procs=16):
     import multiprocessing as mp
+    import kdriver as _K
+    jobs = _K.filter_buildable(jobs)
     if not jobs:
         return []
     with mp.get_context('fork').Pool(min(procs, len(jobs))) as pool:
